@@ -381,6 +381,79 @@ func zipChecks(c *evid.Ctx, evals, nontriv *int64, maxLen int) {
 	}
 }
 
+// twoContainers: a container that has been filled must keep returning its records when another
+// container is filled before it is serialised (a compressor that recycles its output buffer, or a
+// payload that aliases a shared scratch area, only shows with two containers alive at once).
+func twoContainers(c *evid.Ctx, evals, nontriv *int64, maxLen int) {
+	mk := func(tag string, i int) *pack.LogSinkPack {
+		l := pack.NewLogSinkPack()
+		l.Category = "app-" + tag
+		l.Content = fmt.Sprintf("%s-content-%d-%s", tag, i, string(bytes.Repeat([]byte{'y'}, i*30)))
+		l.Line = int64(i)
+		l.Time = int64(2000 + i)
+		l.Tags.PutString("host", tag)
+		return l
+	}
+	rawOf := func(tag string, n int) ([]byte, []*pack.LogSinkPack) {
+		out := gio.NewDataOutputX()
+		var orig []*pack.LogSinkPack
+		for i := 0; i < n; i++ {
+			l := mk(tag, i)
+			orig = append(orig, l)
+			pack.WritePack(out, l)
+		}
+		return append([]byte{}, out.ToByteArray()...), orig
+	}
+	verify := func(desc, which string, z *pack.LogSinkZipPack, orig []*pack.LogSinkPack) {
+		defer func() {
+			if r := recover(); r != nil {
+				c.Violation("C03:LogSinkZipPack:two-containers:panic", fmt.Sprintf("%s: %s container: panic: %v", desc, which, r), nil)
+			}
+		}()
+		dec, ok := pack.ToPack(pack.ToBytesPack(z)).(*pack.LogSinkZipPack)
+		if !ok {
+			c.Violation("C03:LogSinkZipPack:two-containers:type", desc+": wrong decoded type", nil)
+			return
+		}
+		got := dec.GetRecords()
+		if len(got) != len(orig) {
+			c.Violation("C03:LogSinkZipPack:two-containers:count", fmt.Sprintf("%s: the %s container returns %d records, %d were put in", desc, which, len(got), len(orig)), nil)
+			return
+		}
+		for i, l := range orig {
+			want := pack.ToPack(pack.ToBytesPack(l)).(*pack.LogSinkPack)
+			want.Pcode, want.Oid, want.Okind, want.Onode = z.Pcode, z.Oid, z.Okind, z.Onode
+			if !bytes.Equal(pack.ToBytesPack(want), pack.ToBytesPack(got[i])) {
+				c.Violation("C03:LogSinkZipPack:two-containers:content", fmt.Sprintf("%s: record %d of the %s container differs from the original", desc, i, which), nil)
+				return
+			}
+		}
+	}
+	for n1 := 1; n1 <= maxLen+2; n1++ {
+		for n2 := 1; n2 <= maxLen+2; n2++ {
+			for _, th := range []int{0, 1 << 20} {
+				for rep := 0; rep < 3; rep++ {
+					atomic.AddInt64(evals, 1)
+					atomic.AddInt64(nontriv, 1)
+					desc := fmt.Sprintf("LogSinkZipPack A (%d records) filled, then LogSinkZipPack B (%d records) filled, compression threshold %d, then both serialised and read back", n1, n2, th)
+					rawA, origA := rawOf("A", n1)
+					rawB, origB := rawOf("B", n2)
+					a := pack.NewLogSinkZipPack()
+					a.Pcode, a.Oid = 11, 1
+					a.RecordCount = n1
+					a.SetRecords(rawA, th)
+					b := pack.NewLogSinkZipPack()
+					b.Pcode, b.Oid = 22, 2
+					b.RecordCount = n2
+					b.SetRecords(rawB, th)
+					verify(desc, "first", a, origA)
+					verify(desc, "second", b, origB)
+				}
+			}
+		}
+	}
+}
+
 // containerChecks: zip / log-sink zip / record-list packs return their inner packs or records
 // unchanged, in order and stamped with the container's identity. (CompositePack is covered by the
 // generic deviation run through its hint.)
@@ -391,4 +464,5 @@ func containerChecks(c *evid.Ctx, evals, nontriv *int64) {
 		ml = 3
 	}
 	zipChecks(c, evals, nontriv, ml)
+	twoContainers(c, evals, nontriv, ml)
 }
